@@ -828,7 +828,10 @@ class _Sim:
         r = self.robot
         for c, a in self.keys:
             comp = r.__dict__.get(c, None) if r is not None else None
-            out.append(getattr(comp, a, "<missing>") if comp is not None else "<nocomp>")
+            v = getattr(comp, a, "<missing>") if comp is not None else "<nocomp>"
+            if not (v is None or isinstance(v, (bool, int, float, str, list))):
+                v = f"<{type(v).__name__} object>"       # e.g. an unreplaced will_reset_to marker
+            out.append(v)
         return out
 
     def _inj_ok(self):
@@ -1229,12 +1232,13 @@ def execute(plan, trace=False):
                 if prop not in INTEGRATION:
                     robot_invariants.check(prop, cfg, ops, ilog, ioutcome)
                 if prop == "C19":
-                    last = {}
-                    for t, wid in sim.wd_warnings:
-                        if wid in last and t - last[wid] < 1_000_000:
-                            raise Violation(prop, "watchdog.rate_in_robot_loop", f"the robot's loop watchdog logged two overrun warnings {t - last[wid]} us apart (at {last[wid]} and {t} us)",
+                    # MagicRobot owns one loop watchdog for its whole lifetime (robot.watchdog)
+                    last = None
+                    for t, _wid in sim.wd_warnings:
+                        if last is not None and t - last < 1_000_000:
+                            raise Violation(prop, "watchdog.rate_in_robot_loop", f"the robot's loop watchdog logged two overrun warnings {t - last} us apart (at {last} and {t} us)",
                                             sig=f"{prop}:watchdog.rate_in_robot_loop")
-                        last[wid] = t
+                        last = t
         except Violation as v:
             status, violation = "violation", v.to_json()
         probes, shape, states, trans = _coverage(cfg, model, mlog, moutcome, ops)
@@ -1274,7 +1278,7 @@ def execute(plan, trace=False):
         def emit(self, record):
             if record.levelno >= _logging.WARNING:
                 wd = getattr(sim.robot, "watchdog", None) if sim.robot is not None else None
-                sim.wd_warnings.append([world.now_us(), id(wd)])
+                sim.wd_warnings.append([world.now_us(), 0])
 
     sim.wd_warnings = []
     _wdh = _WdCapture(level=_logging.DEBUG)
